@@ -469,6 +469,10 @@ class Extractor {
         o["id"] = idOf(D->getCanonicalDecl());
         o["name"] = D->getNameAsString();
         o["type"] = ty(D->getType());
+        if (isa<DecompositionDecl>(D)) {
+            o["name"] = "$sb" + idOf(D->getCanonicalDecl());
+            o["decomposition"] = true;
+        }
         if (auto* VD = dyn_cast<VarDecl>(D)) {
             if (isa<ParmVarDecl>(VD))
                 o["k"] = "param";
@@ -490,8 +494,19 @@ class Extractor {
         } else if (isa<EnumConstantDecl>(D)) {
             o["k"] = "enumconst";
             o["qname"] = qname(D);
-        } else if (isa<BindingDecl>(D)) {
+        } else if (auto* BD = dyn_cast<BindingDecl>(D)) {
+            // a structured binding names a part of the (unnamed) decomposed variable
             o["k"] = "binding";
+            if (auto* DD = dyn_cast_or_null<DecompositionDecl>(BD->getDecomposedDecl())) {
+                o["decomp"] = idOf(DD->getCanonicalDecl());
+                o["decomp_name"] = "$sb" + idOf(DD->getCanonicalDecl());
+                o["decomp_type"] = ty(DD->getType().getNonReferenceType());
+                int i = 0;
+                for (auto* B : DD->bindings()) {
+                    if (B == BD) o["bidx"] = i;
+                    ++i;
+                }
+            }
         } else {
             o["k"] = "other";
         }
